@@ -1,4 +1,5 @@
 import GoatSpec.Ids
+import GoatSpec.Proofs.Closure
 /-! # C05 — tracking ids, components and service-start calls are mutually consistent
     (numbering and table construction; for every list of files / counts / import graphs). -/
 namespace GoatSpec.C05
@@ -190,6 +191,32 @@ theorem closed_complete (imp : Nat → List Nat) (v : List Nat) (hc : closedUnde
     simp only [closedUnder, List.all_eq_true] at hc
     have := hc _ ih _ h
     simpa [List.contains_iff_mem] using this
+
+/-- **closure completeness**: with more fuel than there are packages, everything reachable from
+    `dir` through internal imports is collected -/
+theorem closure_complete (imp : Nat → List Nat) (U : List Nat) (hU : ∀ p, ∀ q ∈ imp p, q ∈ U)
+    (fuel dir : Nat) (hf : U.length < fuel) : ∀ x, Reach imp dir x → x ∈ collect imp fuel dir [] := by
+  have hun : unvisited U [] < fuel := by
+    have : unvisited U [] ≤ U.length := by unfold unvisited; exact List.length_filter_le _ _
+    omega
+  have h := collect_complete imp U hU fuel dir [] hun
+  intro x hr
+  induction hr with
+  | step hb => exact h.1 _ hb
+  | trans _ hc ih => exact h.2.closed _ ih (by simp) _ hc
+
+/-- **closure_correct**: `collectImports` computes exactly the packages reachable from the main
+    directory in the internal import graph (the component of a main package is its import
+    closure), for every import graph, given fuel beyond the number of packages -/
+theorem closure_correct (imp : Nat → List Nat) (U : List Nat) (hU : ∀ p, ∀ q ∈ imp p, q ∈ U)
+    (fuel dir : Nat) (hf : U.length < fuel) (x : Nat) :
+    x ∈ collect imp fuel dir [] ↔ Reach imp dir x := by
+  constructor
+  · intro hx
+    rcases closure_sound imp fuel dir [] x hx with h | h
+    · cases h
+    · exact h
+  · exact closure_complete imp U hU fuel dir hf x
 
 /-- non-vacuity -/
 example : (number 1 [("a.go", 2), ("b/c.go", 0), ("d.go", 3)]).map (fun iv => (iv.2.1, iv.2.2)) = [(1, 2), (3, 2), (3, 5)] := by decide
